@@ -230,6 +230,8 @@ def runStep (w : World) (j : Json) : Except String (Except Err (Option Nat) × W
   | "edit" =>
     let (r, w') := run (applyEdit (← asEdit j)) w
     return (r.map fun _ => none, w')
+  | "wellFormed" =>
+    return (if wellFormed w then .ok none else .error (.raised "dangling pointer"), w)
   | op => throw s!"unknown step {op}"
 
 def handle : Handler := fun m j =>
@@ -244,6 +246,14 @@ def handle : Handler := fun m j =>
       w := w'
       outs := outs.push (outcomeJ r)
     return obj [("outcomes", Json.arr outs), ("world", Json.arr (w.map cellJ).toArray)]
+  | "clone.history" => some do
+    -- a clone step followed by `runHistory` on a list of edits
+    let w0 ← (← getArr j "world").mapM asCell
+    let (r, w1) ← runStep w0 (← j.getObjVal? "clone")
+    let edits ← (← getArr j "edits").mapM asEdit
+    let (rs, w2) := runHistory edits w1
+    return obj [("outcomes", Json.arr ((outcomeJ r) :: rs.map (fun x => outcomeJ (x.map fun _ => none))).toArray),
+                ("world", Json.arr (w2.map cellJ).toArray)]
   | _ => none
 
 end IrVerif.Drive.Clone
